@@ -343,6 +343,13 @@ func flushBuf(pos int, obuf []byte, normalizeWord bool, ld *dictionary) tokenID 
 	// escape sequences can occur anywhere in the string, not just the beginning
 	// so always attempt to unescape the word's content.
 	token = html.UnescapeString(token)
+	// A character reference may decode to an upper-case letter ("&#65;"), behind
+	// the lower-casing of the rune loop: apply it to the decoded word as well.
+	if normalizeWord {
+		token = strings.ToLower(token)
+	} else if _, n := utf8.DecodeRuneInString(token); n > 0 {
+		token = token[:n] + strings.ToLower(token[n:])
+	}
 
 	clean := normalizeToken(token)
 
